@@ -244,7 +244,7 @@ fn huge_limit_layer(w: &World, col: &Collector) {
 pub fn run(ctx: &Ctx) -> i32 {
     let col = Collector::new();
     let w = world();
-    let maxlen = ctx.tier.pick(3, 4) as u32;
+    let maxlen = ctx.tier.pick(3, 5) as u32;
     let k = jlines().len() as u64;
     let nseq = seq_count(k, maxlen);
     let nst = w.stmts.len() as u64;
